@@ -28,7 +28,7 @@ MANIFEST = {
                  "scheduler (TSan-instrumented build), plus exhaustive per-thread frame-history enumeration",
     "text": "(a) 27 per-frame analysis functions x every ordered selection with repetition of 1..3 of 4 distinct frames (84 "
             "sequences) on one thread, plus the 20-frame trajectory forwards, reversed and rotated: each frame's result "
-            "bit-identical to the frame alone. (b) sasa(), "
+            "bit-identical to the frame alone; the cell changes shape (rectangular / hexagonal) and height from frame to frame and is short enough for pairs to wrap in the ab-plane. (b) sasa(), "
             "_compute_neighborlist(), inplace_center_and_trace_atom_major() built from the tree with -fsanitize=thread "
             "instrumentation and run on ucontext green threads: all schedules with <= 2 (thorough 3) preemptions at "
             "accesses to granules touched by >= 2 threads with a write, all free choices at blocking points, T in {2,3}, "
